@@ -220,6 +220,8 @@ fn main() {
     for (peers, evs) in &corpus {
         for src in [Src::Bmp, Src::Bgp, Src::Mrt] {
             if src == Src::Mrt && evs.iter().any(|e| matches!(e, Ev::Upd(_, u) if u.ann.iter().any(|a| u.wd.contains(a)))) { continue; }
+            // the witnesses are queried at their own prefix (short replay lines), then at the whole pool
+            emit(&mut rec, src, *peers, evs, &[p24]);
             emit(&mut rec, src, *peers, evs, &pool);
         }
     }
@@ -227,7 +229,7 @@ fn main() {
     // ---- generated histories
     let mut rng = Rng::new(args.seed);
     let budget = if args.thorough { 300.0 } else { 35.0 };
-    let max_cases = if args.thorough { 40_000 } else { 1500 };
+    let max_cases = if args.thorough { 40_000 } else { 5000 };
     let mut n = 0;
     while n < max_cases && t0.elapsed().as_secs_f64() < budget {
         let src = match rng.below(5) { 0 | 1 => Src::Bmp, 2 | 3 => Src::Bgp, _ => Src::Mrt };
